@@ -9,10 +9,18 @@ THEOREMS = [
     (NS + "C05_fits_alone", "full"),
     (NS + "C05_head_is_sent", "full"),
     (NS + "C05_timeout_requeues", "full"),
+    (NS + "C05_send_is_alive", "full"),
+    (NS + "C05_never_dropped_step", "full"),
+    (NS + "C05_never_dropped", "full"),
     (NS + "C05_fragment_expiry_witness", "witness"),
     (NS + "C05_fragments_delivered_without_expiry", "witness"),
 ]
 ASSUMPTIONS = [
+    "safety half (C05_never_dropped, for every history without disconnect): a guaranteed single-datagram message stays queued, or parked under "
+    "a datagram that still awaits its ack/time-out, or reported delivered - under FreshAlong (the datagram number a build takes is not the key "
+    "of a parked callback list: false only with 65535 unresolved datagrams, where the real dict assignment overwrites too) and the typed-queue "
+    "invariant (proved); fragments of a guaranteed fragmented send are held by FragmentSender (retry 0 until their first time-out) and are "
+    "covered by the per-step theorems and the differential only",
     "liveness is an argument under a healed schedule (every emission delivered, both sides ticking, keepAlive + tick + 2*delay < "
     "outgoingTimeout); the Lean theorems are the per-step facts it consists of (every size fits alone, the head of the queue is sent, a "
     "time-out re-queues under the original message number, an ack completes once - with C07/C08: named => accepted => delivered or "
